@@ -5,6 +5,8 @@ mod formatter;
 pub mod ir;
 mod printer;
 mod test;
+#[cfg(feature = "verif")]
+pub mod verif;
 mod workspace;
 
 pub use config::{
